@@ -47,6 +47,9 @@ class LogMismatch(BaseException):
 EX = None  # current explorer (one per process)
 SOLVER_KIND = os.environ.get('SYMX_SOLVER', 'default')
 SAMPLE_LARGE_DOMAINS = True
+# values always tried when a large-domain character has to be sampled: line terminators, quotes, backslash, comment and
+# statement punctuation, a letter, a digit, NUL, a non-BMP character
+INTERESTING = [10, 13, 34, 39, 92, 35, 59, 40, 41, 97, 48, 0, 0x2028, 0x1f600]
 
 
 def make_solver():
@@ -225,7 +228,7 @@ class Explorer:
         self.solver.add(term == v)
         return v
 
-    def sample(self, term):
+    def sample(self, term, interesting=None):
         """NOT exhaustive: a value with a large domain reached code that needs it concretely (a C-level call without
         a shim).  The path continues on a few representative values (smallest, largest, and a few solver-chosen
         ones); such paths are counted in `sampled` and reported as not exhaustively decided."""
@@ -236,8 +239,13 @@ class Explorer:
             v = e[1]
         else:
             reps = []
+            for iv in (interesting or INTERESTING):
+                if len(reps) < 16 and self.check(term == iv) == z3.sat:
+                    reps.append(iv)
             self.solver.push()
             try:
+                for r0 in reps:
+                    self.solver.add(term != r0)
                 for extra in (None, 'lo', 'hi'):
                     for _ in range(3 if extra is None else 1):
                         if self.check() != z3.sat:
